@@ -10,7 +10,7 @@
    and the correspondence check reproduce).
    Specification (M.FeaturesSpec): [spec_step], written without reference to the order. *)
 From Coq Require Import List Arith Bool.
-From M Require Import Features FeaturesSpec FeaturesH FeaturesDyn FeaturesRe FeaturesFinal.
+From M Require Import Features FeaturesSpec FeaturesH FeaturesDyn FeaturesRe FeaturesFinal FeaturesKinds.
 From P Require Import FeaturesP FeaturesHP FeaturesDynP FeaturesReP.
 Import ListNotations.
 
@@ -405,3 +405,46 @@ Theorem C19_final_frame : forall (cf cf' : fcfgF) (w : world) (h : list (fmodel 
   cf_cfg cf = cf_cfg cf' -> frunF cf w h = frunF cf' w h.
 Proof. exact run_final_independent. Qed.
 Print Assumptions C19_final_frame.
+
+(* ------------------------------------------------------------------------------------
+   Callback kinds and stacked decorators (M.FeaturesKinds).  "Leave all other behaviour of
+   the machine unchanged": decorating never takes a callback kind away. *)
+
+(* for any stack of decorators ds (outermost first) over a state class with kinds [base]:
+   the decorated class has kind k iff the base class has it or some mix-in of some decorator
+   of the stack brings it *)
+Theorem C19_kinds_exact : forall (k : kind) (base : list kind) (ds : list (list mixin)),
+  has_kind k (stack_kinds ds base) =
+  existsb (fun x => has_kind k (mixin_kinds x)) (concat ds) || has_kind k base.
+Proof. exact stack_kinds_exact. Qed.
+Print Assumptions C19_kinds_exact.
+
+(* in particular the machine's own kinds (on_final of the hierarchical state class) survive
+   every decoration, and so do the kinds an inner decorator brought (on_timeout) *)
+Theorem C19_kinds_frame : forall (k : kind) (base : list kind) (ds : list (list mixin)),
+  has_kind k base = true -> has_kind k (stack_kinds ds base) = true.
+Proof. exact stack_kinds_frame. Qed.
+Print Assumptions C19_kinds_frame.
+
+Theorem C19_kinds_stack : forall (k : kind) (base : list kind) (outer : list mixin) (inner : list (list mixin)),
+  has_kind k (stack_kinds inner base) = true -> has_kind k (stack_kinds (outer :: inner) base) = true.
+Proof. exact stack_kinds_inner. Qed.
+Print Assumptions C19_kinds_stack.
+
+(* a mix-in without enter code of its own may stand anywhere in the MRO (of one decorator or
+   of a stack): the enter chain is that of the others, in their order *)
+Theorem C19_stack_inert :
+  forall (c : fcfg) (fs : list feature) (m : fmodel) (src d : fstate_id) (r : mrec) (f : nat),
+  enter_chain c fs m src d r f =
+  enter_chain c (filter (fun g => negb (feature_eqb g FTags)) fs) m src d r f.
+Proof. exact chain_ignores_inert. Qed.
+Print Assumptions C19_stack_inert.
+
+Example C19_kinds_example :
+  let ds := [[MFeat FTags]; [MTimeout; MFeat FVolatile]] in
+  has_kind KFinal (stack_kinds ds (base_kinds true)) = true /\
+  has_kind KTimeout (stack_kinds ds (base_kinds true)) = true /\
+  has_kind KFinal (stack_kinds ds (base_kinds false)) = false /\
+  stack_order ds = [FTags; FVolatile].
+Proof. vm_compute. repeat split. Qed.
+Print Assumptions C19_kinds_example.
